@@ -16,7 +16,7 @@ class Contract:
     def __init__(self, key, variant="default", params=None, requires=None, ensures=None, loops=None, result=None,
                  modifies=None, options=None, fmodel="R", ghost=None, globals_=None, props=(), raises=None,
                  entry_hints=None, exit_hints=None, pure=None, note="", track_written=None, exc_ensures=None,
-                 call_variant=None, returns_none_ok=True, assumes=None, anchors=None):
+                 call_variant=None, returns_none_ok=True, assumes=None, anchors=None, local_ensures=None):
         self.key = key
         self.variant = variant
         self.path, self.qualname = key.split("::")
@@ -42,6 +42,7 @@ class Contract:
         self.call_variant = call_variant or {}
         self.assumes = _named(assumes)
         self.anchors = anchors or {}
+        self.local_ensures = _named(local_ensures)   # checked at exit, may mention locals; never assumed by callers
         REGISTRY[(key, variant)] = self
 
 
@@ -386,6 +387,9 @@ def spec_call(ex, node, st):
             else:
                 args.append(_coerce(ex, v, ty))
         return f(*args)
+    if nm in ("sqrt", "log", "erf", "ndtri", "gammainc", "digamma", "pow", "cos", "log10") and nm not in st.env:
+        args = [ex.tofloat(ex.eval(a, st)) for a in node.args]
+        return ex.fm.call(nm, *args)
     if nm in ex.c.ghost:
         # parameterised ghost definition "name(args)": "expr"
         params, body = ex.c.ghost[nm]
